@@ -819,14 +819,22 @@ func noteResolved(e *Env, d *coreDump, uid string) {
 			P++
 		}
 	}
-	nb := int(e.App.BetKeeper.GetParams(e.Ctx).BatchSettlementCount)
-	no := int(e.App.OrderbookKeeper.GetParams(e.Ctx).BatchSettlementCount)
+	// batch sizes are parameters up to 2^64-1: compute in uint64
+	nb64 := uint64(e.App.BetKeeper.GetParams(e.Ctx).BatchSettlementCount)
+	no64 := e.App.OrderbookKeeper.GetParams(e.Ctx).BatchSettlementCount
+	if nb64 == 0 {
+		nb64 = 1
+	}
+	if no64 == 0 {
+		no64 = 1
+	}
+	qb, qp := int(uint64(B)/nb64), int(uint64(P)/no64)
 	// the bound proved on the model for every reachable state (c05_settles_within): floor(B/nb) + floor(P/no) + 1
 	// successful end-blocks. (The tighter ceil(B/nb)+ceil(P/no) is false of the code as it is and was a false alarm
 	// of an earlier version of this monitor: a book without participations that waits behind books whose
 	// participations use up the block's budget exactly is only looked at in the next block,
 	// c05_ceil_bound_counterexample.)
-	bound := B/nb + P/no + 1
+	bound := qb + qp + 1
 	coreSeen.due[uid] = &settleDue{resolvedAtEB: coreSeen.ebCount, bound: bound}
 }
 
